@@ -25,7 +25,7 @@ var checkSpecs = map[string]*checkSpec{
 		}, kcpStateAssumptions...),
 		stubs: commonStubs,
 		bounds: map[string]string{
-			"quick":    "L1: Send of 0..7 symbolic bytes with MSS 1..3, stream and message mode, from 3 shapes, and of 254..300 bytes at MSS 1 (fragment limit); L2: full flush from 3 shapes, every emitted PUSH decoded independently and compared with the in-flight segment it names; L4: Recv with buffers 0,1,2,8 from 4 receive shapes with symbolic fragment numbers; L6: UDPSession.Read over 1-2 delivered messages (1 or 5 bytes) with up to 5 reads of 1/3/16 bytes (every split between pending remainder, delivery queue and caller buffer), UDPSession.WriteBuffers of a 2-element vector (0..7 + 0..6 bytes) at MSS 3, stream and message mode; S3 scenario: two real endpoints, MSS 2, two writes (3+1 symbolic bytes), stream and message mode, windows {1,3}x{1,2}, symbolic origins of both sequence spaces and the clock, every fate in {drop, deliver, duplicate, delay one round} for the first 4 datagrams (thorough 6) then a fair network, <= 40 rounds: reader sees a prefix at every step, everything delivered intact, backlog drains; S3 session link: a real dialled UDPSession and a real Listener/accepted session over stub sockets, {no cipher, nonce+CRC path, AEAD} x {no FEC, FEC 2/1 with the abstract MDS codec} x stream/message mode x read buffers of 1/16 bytes, three writes (2+1+2 symbolic bytes), every fate for the first 2 client->server and the first server->client datagram (thorough 4 and 2), retransmission driven by the real update() on a harness clock (100 ms rounds, <= 24): prefix at every Read, everything intact, backlog drains, window limits and datagram sizes at every round",
+			"quick":    "L1: Send of 0..7 symbolic bytes with MSS 1..3, stream and message mode, from 3 shapes, and of 254..300 bytes at MSS 1 (fragment limit); L2: full flush from 3 shapes, every emitted PUSH decoded independently and compared with the in-flight segment it names; L4: Recv with buffers 0,1,2,8 from 4 receive shapes with symbolic fragment numbers; L6: UDPSession.Read over 1-2 delivered messages (1 or 5 bytes) with up to 5 reads of 1/3/16 bytes (every split between pending remainder, delivery queue and caller buffer), UDPSession.WriteBuffers of a 2-element vector (0..7 + 0..6 bytes) at MSS 3, stream and message mode; S3 scenario: two real endpoints, MSS 2, two writes (3+1 symbolic bytes), stream and message mode, windows {1,3}x{1,2}, symbolic origins of both sequence spaces and the clock, every fate in {drop, deliver, duplicate, delay one round} for the first 4 datagrams (thorough 6) then a fair network, <= 40 rounds (an idle round moves the clock straight to the sender's next retransmission timer): reader sees a prefix at every step, everything delivered intact, backlog drains; S3 session link: a real dialled UDPSession and a real Listener/accepted session over stub sockets, {no cipher, nonce+CRC path, AEAD} x {no FEC, FEC 2/1 with the abstract MDS codec} x stream/message mode x read buffers of 1/16 bytes, three writes (2+1+2 symbolic bytes), every fate for the first 2 client->server and the first server->client datagram (thorough 3 and 2), retransmission driven by the real update() on a harness clock (100 ms rounds, <= 24): prefix at every Read, everything intact, backlog drains, window limits and datagram sizes at every round",
 			"thorough": "same with the larger fate bounds stated above",
 		},
 		outside: "real sockets and goroutine scheduling (blocking Read/Write paths are C13); the CFB arithmetic (C08) and GF(2^8) arithmetic (abstract MDS codec) are separate; payloads longer than 7 bytes",
